@@ -62,7 +62,7 @@ E = {
 ENDINGS = list(E)
 STATUSES = (None, 'PASS', 'FAIL', 'SKIP')
 MODES = ('normal', 'keep', 'act')
-OUTPUTS = ('none', 'out', 'err', 'both')
+OUTPUTS = ('none', 'out', 'err', 'both', 'unicode')
 CODES_Q = (0, 1, 2, 32, 33, 64, 65, 127, 128, 129, 255)
 
 USAGE = [['--no-such-option', 'c.case'], [], ['no-such-file.case'], ['--actor'], ['--keep', '--act'],
@@ -170,6 +170,8 @@ def run(case) -> Result:
     _, status, ending, code, output, mode = case
     aout = 'AOUT line 1\nline 2 no newline' if output in ('out', 'both') else ''
     aerr = 'AERR line\n' if output in ('err', 'both') else ''
+    if output == 'unicode':
+        aout, aerr = 'na\u00efve \u20ac \U0001f600\n\u2028x', '\u00e9rr\n'
     seam.script['atc'] = {'out': aout, 'err': aerr, 'exit': code}
     seam.script['failing'] = {'exit': 3, 'err': 'failing program\n'}
     seam.script['nonexisting'] = {'oserror': True}
